@@ -4,7 +4,7 @@
 \* from every 6th cover row, Repeat = 2 Generate steps (the second with unchanged input, action Again) in the
 \* directory of every other cover row with autobindModel.  Measured (seed 1): 20 cover rows + 8 known-defect probe
 \* rows, 42 Generate steps, 84 distinct states, depth 6, ~2 s; -coverage 1: Init 28, Generate 42, Evolve 6, Again 8
-\* (no action at 0).
+\* (no action at 0).  Round 5: 45 boolean factors (ifaceOrphan, schemaInExecDir), same row / step counts.
 CONSTANTS
   Seed = 1
   Extra = 6
